@@ -186,15 +186,20 @@ func (t *Trace) Nontrivial(key string) { t.nontrivial[key] = true }
 func (t *Trace) Fail(property, monitor, msg string) {
 	t.Violations++
 	// a change that breaks a monitor on every input must not fill the disk:
-	// at most 25 records per monitor, each with at most the last 60
-	// operations of its history and a message of at most 4000 bytes; further
-	// failures are only counted (summary: monitor_failures)
+	// at most 3 records per monitor and history and 1000 per monitor, each
+	// with at most the last 60 operations of its history and a message of at
+	// most 4000 bytes; further failures are only counted (summary:
+	// monitor_failures).  The limit is per HISTORY so that the records of a
+	// known finding (which recur in their own histories) cannot use up the
+	// room of a new failure of the same monitor elsewhere.
 	if t.failRecs == nil {
 		t.failRecs = map[string]int{}
 	}
 	key := property + "." + monitor
+	hkey := key + "@" + t.curHist
 	t.failRecs[key]++
-	if t.failRecs[key] > 25 {
+	t.failRecs[hkey]++
+	if t.failRecs[hkey] > 3 || t.failRecs[key] > 1000 {
 		return
 	}
 	ops := t.curLines
